@@ -42,7 +42,10 @@ def add_function_block_aux(
     assert new_block.module, "block must be in a module"
 
     function_blocks = _auxdata.function_blocks.get(new_block.module)
-    if function_blocks is not None:
+    # The table may not know the function: the caller's Function objects do
+    # not have to come from it (it may even have been created only now, for
+    # a function inserted by this rewrite).
+    if function_blocks is not None and func_uuid in function_blocks:
         function_blocks[func_uuid].add(new_block)
     cache.functions_by_block[new_block] = func_uuid
 
